@@ -27,45 +27,102 @@ def left_x(Y):
 
 def scan_rules(rep, prog, rows, cols):
     cfg = prog.config
-    it, frags, lines, log = RS.run_scan(prog, rows, cols)
     b = prog.body(RS.R + "scan")
-    if len(frags) != rows or any(len(f) != cols for f in frags):
-        raise common.Infra("C05: expected %d x %d fragments from the symbolic scan, got %s" % (rows, cols, [len(f) for f in frags]))
-    ry0 = ("symop", "RND", sym("y0"), None)
-    pairs, what = [], []
-    for k in range(rows):
-        Yk = add(ry0, ("f", float(k)))
-        x0k = log[1 + k][1]            # RND(<left edge x of row k>) as used for the fragment count
-        if not RS.is_rnd(x0k):
-            raise common.Infra("C05.I1: the span start of row %d is not a rounded value (%r)" % (k, x0k))
-        pairs.append((x0k[2], left_x(Yk)))
-        what.append(("I1", "row %d: the span starts at the rounded x of the LEFT EDGE at the row's y (lx0 + (y - y0)(lx1 - lx0)/(y1 - y0))" % k))
-        for m in range(cols):
-            fr = frags[k][m]
-            pos, var = fr[3][0], A.deref_all(it, fr[3][1])
-            px, py, pz = S.components(it, pos)
-            X = add(x0k, ("f", float(m)))
-            pairs += [(px, X), (py, Yk), (pz, plane("g", X, Yk)), (mul(var, plane("g", X, Yk)), plane("f", X, Yk))]
-            what += [("I1", "fragment (%d,%d): x = RND(left x) + %d" % (k, m, m)), ("I1", "fragment (%d,%d): y = RND(y0) + %d" % (k, m, k)),
-                     ("I2", "fragment (%d,%d): depth = g(x, y), the plane through the vertex depths" % (k, m)),
-                     ("I3", "fragment (%d,%d): attribute * g(x, y) = f(x, y) (plane value / interpolated reciprocal depth)" % (k, m))]
-    try:
-        res = S.field_identities(pairs)
-    except A.Undecided as e:
-        raise common.Infra("C05: identities could not be decided (%s)" % e)
-    bad = {}
-    for (rule, w), r in zip(what, res):
-        if not r["equal"]:
-            bad.setdefault(rule, []).append(w)
-    for rule, txt in (("I1", "fragments sit at pixel centres x = RND(left edge) + m, y = RND(y0) + k"),
-                      ("I2", "fragment depth is the plane through the vertex depths at the fragment's centre"),
-                      ("I3", "fragment attribute is the attribute plane divided by the interpolated reciprocal depth at the fragment's centre")):
-        n = sum(1 for (r_, _w) in what if r_ == rule)
-        rep.inst("C05." + rule, "%s: %d identities on a %d x %d block of a symbolic trapezoid: %s" % (txt, n, rows, cols, "hold" if rule not in bad else "FAIL (%s)" % bad[rule][0]), config=cfg)
-        if rule in bad:
-            rep.violate("C05." + rule, "%s|scan" % rule, b.where(),
-                        "%s does not hold as an identity over the reals: %d of %d instances fail, first: %s" % (txt, len(bad[rule]), n, bad[rule][0]), config=cfg)
-    rep.count("identities", len(pairs))
+    texts = (("I1", "fragments sit at pixel centres x = RND(left edge) + m, y = RND(y0) + k"),
+             ("I2", "fragment depth is the plane through the vertex depths at the fragment's centre"),
+             ("I3", "fragment attribute is the attribute plane divided by the interpolated reciprocal depth at the fragment's centre"))
+    for trace, (it, frags, lines, log) in RS.explore_scan(prog, rows, cols):
+        if len(frags) != rows or any(len(f) != cols for f in frags):
+            raise common.Infra("C05: expected %d x %d fragments from the symbolic scan, got %s" % (rows, cols, [len(f) for f in frags]))
+        ry0 = ("symop", "RND", sym("y0"), None)
+        pairs, what, checks = [], [], []
+        for k in range(rows):
+            Yk = add(ry0, ("f", float(k)))
+            x0k = log[1 + k][1]            # RND(<left edge x of row k>) as used for the fragment count
+            if not RS.is_rnd(x0k):
+                raise common.Infra("C05.I1: the span start of row %d is not a rounded value (%r)" % (k, x0k))
+            pairs.append((x0k[2], left_x(Yk)))
+            what.append(("I1", "row %d: the span starts at the rounded x of the LEFT EDGE at the row's y (lx0 + (y - y0)(lx1 - lx0)/(y1 - y0))" % k))
+            checks.append(None)
+            for m in range(cols):
+                fr = frags[k][m]
+                pos, var = fr[3][0], A.deref_all(it, fr[3][1])
+                px, py, pz = S.components(it, pos)
+                X = add(x0k, ("f", float(m)))
+                pairs += [(px, X), (py, Yk), (pz, plane("g", X, Yk)), (mul(var, plane("g", X, Yk)), plane("f", X, Yk))]
+                what += [("I1", "fragment (%d,%d): x = RND(left x) + %d" % (k, m, m)), ("I1", "fragment (%d,%d): y = RND(y0) + %d" % (k, m, k)),
+                         ("I2", "fragment (%d,%d): depth = g(x, y), the plane through the vertex depths" % (k, m)),
+                         ("I3", "fragment (%d,%d): attribute * g(x, y) = f(x, y) (plane value / interpolated reciprocal depth)" % (k, m))]
+                checks += [("px", px, X), ("px", py, Yk), ("depth", pz, plane("g", X, Yk)), ("attr", var, div(plane("f", X, Yk), plane("g", X, Yk)))]
+        try:
+            res = S.field_identities(pairs)
+        except A.Undecided as e:
+            raise common.Infra("C05: identities could not be decided (%s)" % e)
+        bad = {}
+        for (rule, w), r, c in zip(what, res, checks):
+            if not r["equal"]:
+                bad.setdefault(rule, []).append((w, c))
+        cond = "" if not trace else " [when %s]" % S.fmt_trace(trace)[:160]
+        wits = {}
+        if trace and bad:
+            # a data-dependent branch of the scan converter on which the identities no longer hold: reported with an input that takes the
+            # branch and on which a fragment is off by more than the property's tolerance; without such an input the rule cannot decide
+            for rule_, lst in bad.items():
+                w_ = RS.scan_witness(trace, log, rows, cols, [(w, c[0], c[1], c[2]) for w, c in lst if c is not None])
+                if w_ is not None:
+                    wits[rule_] = w_
+            bad = {r_: l_ for r_, l_ in bad.items() if r_ in wits}
+            if not bad:
+                raise common.Infra("C05: on the path%s the interpolation identities do not hold (%s) but no trapezoid was found that takes it and is off by more than "
+                                   "0.5 %% of the value range: undecided in configuration %s" % (cond, "position / depth / attribute of the block's fragments", cfg))
+        for rule, txt in texts:
+            n = sum(1 for (r_, _w) in what if r_ == rule)
+            rep.inst("C05." + rule, "%s: %d identities on a %d x %d block of a symbolic trapezoid%s: %s"
+                     % (txt, n, rows, cols, cond, "hold" if rule not in bad else "FAIL (%s)" % bad[rule][0][0]), config=cfg)
+            if rule in bad:
+                wit = wits.get(rule)
+                extra = "" if wit is None else "; e.g. for %s the check '%s' gives %.6g where the plane gives %.6g (tolerance %.3g)" % (
+                    wit["input"], wit["check"], wit["got"], wit["want"], wit["tolerance"])
+                rep.violate("C05." + rule, "%s|scan" % rule, b.where(),
+                            "%s does not hold as an identity over the reals%s: %d of %d instances fail, first: %s%s" % (txt, cond, len(bad[rule]), n, bad[rule][0][0], extra), config=cfg)
+        rep.count("identities", len(pairs))
+
+
+def dropped_triangle_witness(order, constraints, tries=20000):
+    """A concrete triangle (vertex y ranks as in `order`) that follows every recorded decision and strictly contains a pixel centre
+    (by more than the 0.001 px band): used to show that a path on which tri_fill skips a trapezoid is taken by a triangle that has
+    fragments to produce. Deterministic pseudo-random search; None when nothing is found."""
+    import random
+    import math
+    rnd = random.Random(20240917)
+    names = ["A", "B", "C"]
+    for _ in range(tries):
+        ax, ay = rnd.uniform(0, 20), rnd.uniform(0, 8)
+        cx, cy = ax + rnd.uniform(-12, 12), ay + rnd.uniform(1.5, 14)
+        t = rnd.uniform(0.15, 0.85)
+        bx, by = ax + t * (cx - ax) + rnd.choice((-1, 1)) * rnd.uniform(0.05, 2.5), ay + t * (cy - ay)
+        pts = [(ax, ay), (bx, by), (cx, cy)]           # by rank: top, mid, bottom
+        point = {}
+        for i, n in enumerate(names):
+            point["x" + n], point["y" + n] = pts[order[i]]
+        point.update({"gx": 0.0, "gy": 0.0, "gc": 1.0, "fx": 0.1, "fy": 0.2, "fc": 0.3})
+        try:
+            if not S.trace_holds(constraints, point):
+                continue
+        except (S.NotNumeric, ZeroDivisionError):
+            return None
+        # a pixel centre strictly inside
+        x_lo, x_hi = min(p[0] for p in pts), max(p[0] for p in pts)
+        for py in range(int(math.floor(ay)), int(math.ceil(cy)) + 1):
+            for px in range(int(math.floor(x_lo)), int(math.ceil(x_hi)) + 1):
+                c = (px + 0.5, py + 0.5)
+                ds = []
+                for (p, q) in ((pts[0], pts[1]), (pts[1], pts[2]), (pts[2], pts[0])):
+                    ex, ey = q[0] - p[0], q[1] - p[1]
+                    ds.append(((c[0] - p[0]) * ey - (c[1] - p[1]) * ex) / math.hypot(ex, ey))
+                if all(d > 0.01 for d in ds) or all(d < -0.01 for d in ds):
+                    return (", ".join("%s=(%.3f, %.3f)" % (n, point["x" + n], point["y" + n]) for n in names), "(%.1f, %.1f)" % c)
+    return None
 
 
 def tri_fill_rules(rep, prog, scenarios, mode="C05"):
@@ -82,20 +139,23 @@ def tri_fill_rules(rep, prog, scenarios, mode="C05"):
         ys = {n: sym("y" + n) for n in names}
         xs = {n: sym("x" + n) for n in names}
         rank = {ys[n]: order[i] for i, n in enumerate(names)}
-        calls = []
+        state = {"calls": [], "decisions": []}
 
         def orc(op, a_, b_, rank=rank, left_is_mid0=left_is_mid0):
             if a_ in rank and b_ in rank:
                 ra, rb = rank[a_], rank[b_]
-                return {"Lt": ra < rb, "Gt": ra > rb, "Le": ra <= rb, "Ge": ra >= rb, "Eq": ra == rb, "Ne": ra != rb}[op]
+                ans = {"Lt": ra < rb, "Gt": ra > rb, "Le": ra <= rb, "Ge": ra >= rb, "Eq": ra == rb, "Ne": ra != rb}[op]
+                state["decisions"].append((op, a_, b_, ans))
+                return ans
             if op in ("Lt", "Gt", "Le", "Ge"):
-                # mid0.x < mid1.x : the only other comparison in tri_fill
+                # mid0.x < mid1.x : the only other ordering comparison in tri_fill
                 v = left_is_mid0 if op in ("Lt", "Le") else not left_is_mid0
+                state["decisions"].append((op, a_, b_, v))
                 return v
             return None
 
-        def m_scan(it_, args, callee, depth, calls=calls):
-            calls.append([A.deref_all(it_, a_) for a_ in args])
+        def m_scan(it_, args, callee, depth):
+            state["calls"].append([A.deref_all(it_, a_) for a_ in args])
             return ("iter", S.ListIt([]))
 
         def m_sort_by(it_, args, callee, depth):
@@ -117,15 +177,40 @@ def tri_fill_rules(rep, prog, scenarios, mode="C05"):
                 out.insert(pos, x)
             it_._store(r[1], r[2], list(r[3]), ("array", out))
             return ("tuple", [])
-        it = RS.interp(prog, [], extra_models={"raster::scan": m_scan, "slice::<impl [T]>::sort_by": m_sort_by})
-        it.oracle = orc
-        verts = ("array", [("adt", RS.VTX, "Vertex", [RS.pt(xs[n], ys[n], plane("g", xs[n], ys[n])), plane("f", xs[n], ys[n])]) for n in names])
+        def run(fork):
+            state["calls"], state["decisions"] = [], []
+            it_ = RS.interp(prog, [], extra_models={"raster::scan": m_scan, "slice::<impl [T]>::sort_by": m_sort_by})
+
+            def both(op, a_, b_):
+                r_ = orc(op, a_, b_)
+                return r_ if r_ is not None else fork(op, a_, b_)
+            it_.oracle = both
+            verts = ("array", [("adt", RS.VTX, "Vertex", [RS.pt(xs[n], ys[n], plane("g", xs[n], ys[n])), plane("f", xs[n], ys[n])]) for n in names])
+            it_.call_body(tb, [verts, A.UNKNOWN], env={"V": "f32"})
+            return it_, list(state["calls"]), list(state["decisions"])
         try:
-            it.call_body(tb, [verts, A.UNKNOWN], env={"V": "f32"})
+            # a comparison that is neither the y order nor the left/right choice (an early-out, say) forks the interpretation
+            paths = S.explore(run, max_paths=8)
         except (A.Undecided, A.Panic, S.NotPolynomial) as e:
             raise common.Infra(rule + ": tri_fill could not be interpreted symbolically in scenario %s (%s)" % ((order, left_is_mid0), e))
-        if len(calls) != 2:
-            raise common.Infra(rule + ": tri_fill makes %d scan() calls, expected 2" % len(calls))
+        main = [(tr, r) for tr, r in paths if len(r[1]) == 2]
+        for tr, (_it, calls_, decisions) in paths:
+            if len(calls_) == 2:
+                continue
+            if mode == "C05":
+                # fragments that are never produced carry no wrong value: the dropped trapezoid is C04.J3's finding, not this property's
+                rep.inst(rule, "tri_fill, y order %s: a path with %d scan() call(s) exists (when %s); nothing is interpolated on it" % (order, len(calls_), S.fmt_trace(tr)[:120]), config=cfg)
+                continue
+            wit = dropped_triangle_witness(order, decisions + list(tr))
+            if wit is None:
+                raise common.Infra(rule + ": tri_fill makes %d scan() calls when %s (vertex y order %s); no triangle covering a pixel centre was found on that path, "
+                                   "the rule cannot decide it" % (len(calls_), S.fmt_trace(tr), order))
+            rep.violate(rule, "%s|tri_fill-dropped" % rule.split(".")[1], tb.where(),
+                        "tri_fill makes %d scan() call(s) instead of 2 when %s: the triangle %s takes that path although the pixel centre %s lies inside it — %s"
+                        % (len(calls_), S.fmt_trace(tr)[:200], wit[0], wit[1], "its fragments are never produced"), config=cfg)
+        if not main:
+            continue
+        it, calls = main[0][1][0], main[0][1][1]
         pairs, what = [], []
         top = names[order.index(0)]
         mid = names[order.index(1)]
@@ -176,7 +261,8 @@ def tri_fill_rules(rep, prog, scenarios, mode="C05"):
 
 def check(rep, args):
     thorough = rep.tier == "thorough"
-    configs = ["ws"] if not thorough else ["ws", "none"]
+    # both tiers look at the no_std build too: tolerances such as ApproxEq's relative epsilon differ by three orders of magnitude there
+    configs = ["ws", "none"]
     rep.configs = configs
     import itertools
     for cfg in configs:
